@@ -352,6 +352,12 @@ FOR_LOOP:
 				// first.Hash() doesn't verify the tx contents, so MakePartSet() is
 				// currently necessary.
 
+				if second.LastCommit == nil {
+					// a served block without a last commit cannot justify its predecessor
+					log.Error("error in validation", zap.String("error", "block without last commit"))
+					bcR.pool.RedoRequest(second.Height)
+					break SYNC_LOOP
+				}
 				if err := bcR.blockVerifier(types.BlockID{Hash: first.Hash(), PartsHeader: firstPartsHeader}, first.Height, second.LastCommit); err != nil {
 					log.Error("error in validation", zap.String("error", err.Error()))
 					bcR.pool.RedoRequest(first.Height)
